@@ -883,9 +883,13 @@ def run_tmcmc(
         # plausible weights of Sm corresponding to new beta
         # logging.info(f"'Computing beta the weights ...")
 
+        beta_old = beta
         beta, log_evidence, Wm_n, ESS = compute_beta_update_evidence(
             beta, Lm, log_evidence, ESS
         )
+
+        # keep the log-target consistent with the new exponent before resampling / MH (as in run_tmcmc_updated)
+        Postm = Postm + (beta - beta_old) * Lm
 
         console.log(
             f"[bold green]TMCMC Iteration stage {stage_num}: Tempering parameter updated to {beta:.6f}[/bold green]"
